@@ -14,7 +14,7 @@ def instances(tier):
             sym = min(n, 4)
             out.append({'entry': 'h_send', 'params': [n, sym, role], 'opts': BIG, 'bound': 'send of a %d-byte message (%d symbolic bytes at both ends) as %s, checked by a reference RFC 6455 deframer' % (n, sym, 'client (masked)' if role else 'server')})
             out.append({'entry': 'h_receive', 'params': [n, sym, role, 1, 0, 1 if n in (1, 5, 126) else 0], 'opts': BIG, 'bound': 'receive of a %d-byte single-frame message built by a reference framer, %s, symbolic mask key' % (n, 'unmasked (client side)' if role else 'masked (server side)')})
-    for n, nfr, ping, role in ([(2, 2, 0, 0), (6, 2, 1, 1), (6, 3, 1, 0), (130, 2, 1, 0)] if q else [(2, 2, 0, 0), (3, 3, 0, 1), (6, 2, 1, 1), (6, 3, 1, 0), (8, 3, 1, 1), (130, 2, 1, 0), (130, 3, 1, 1)]):
+    for n, nfr, ping, role in ([(2, 2, 0, 0), (6, 2, 1, 1), (6, 3, 1, 0), (6, 2, 2, 0), (130, 2, 1, 0)] if q else [(2, 2, 0, 0), (3, 3, 0, 1), (6, 2, 1, 1), (6, 3, 1, 0), (6, 2, 2, 0), (6, 3, 2, 1), (8, 3, 1, 1), (130, 2, 1, 0), (130, 3, 1, 1)]):
         out.append({'entry': 'h_receive', 'params': [n, min(n, 4), role, nfr, ping, 1 if n == 6 else 0], 'opts': BIG, 'bound': '%d-byte message fragmented into %d frames at every cut position%s' % (n, nfr, ', ping between the first two fragments' if ping else '')})
     for form in (0, 1, 2):
         for role in (0, 1):
